@@ -54,14 +54,14 @@ class LinearInterp(BaseGenerator):
         b = self.b[bin_index]
         x1 = self.x[1:][bin_index]
         d = x - self.int_step[bin_index]
-        y = (
-            np.sqrt(
-                np.maximum(b**2 + k * (k * x1**2 + 2 * b * x1 + 2 * d), 0.0)
-            )
-            - b
-        )
-        y2 = d + b * x1
-        return np.where(k == 0, y2, y) / np.where(k == 0, b, k)
+        c2 = k * x1**2 + 2 * b * x1 + 2 * d
+        root = np.sqrt(np.maximum(b**2 + k * c2, 0.0))
+        # (root - b) / k; for b > 0 in the form c2 / (root + b), which does
+        # not cancel for small k and covers k == 0
+        pos = b > 0
+        num = np.where(pos, c2, root - b)
+        den = np.where(pos, root + b, np.where(k == 0, b, k))
+        return num / den
 
     def __call__(self, x):
         bin_index = np.digitize(x, self.x[1:-1])
